@@ -43,6 +43,8 @@ fn take_one_boundary(order: &mut HashMap<u32, u32>) -> Option<Vec<u32>> {
     let mut next = order.remove(&start)?;
 
     while next != start {
+        #[cfg(feature = "verif")]
+        crate::verif_hooks::tick("patches::take_one_boundary");
         sequence.push(next);
         next = order.remove(&next)?;
     }
@@ -125,6 +127,8 @@ pub fn compute_patch_indices(mesh: &Mesh) -> Vec<Vec<usize>> {
         let mut patch = vec![face_index];
 
         while let Some((v0, v1)) = working_queue.pop() {
+            #[cfg(feature = "verif")]
+            crate::verif_hooks::tick("patches::compute_patch_indices");
             let e0 = (v0, v1);
             let e1 = (v1, v0);
 
